@@ -14,6 +14,9 @@ DEFAULTS = dict(sort_query=True, strip_authentication=True, strip_trailing_slash
                 strip_irrelevant_subdomains=True, strip_fragment="except-routing", normalize_amp=True, fix_common_mistakes=True,
                 infer_redirection=True)
 BOOL_OPTS = [k for k in DEFAULTS if k != "strip_fragment"]
+NEAR_MISSES = {(b"source", b"it"), (b"source", None), (b"source", b""), (b"source", b"twitterx"), (b"ref", b"f"), (b"ref", b"fbx"), (b"ref", b"mine"), (b"mode", b"am"), (b"mode", b"dark"),
+               (b"platform", b"hoot"), (b"platform", b"ios"), (b"sns", b"t"), (b"sns", b"tww"), (b"spref", b"w"), (b"fromref", b"twit"), (b"m", b"2")}
+PER_DOMAIN_KEYS = {"facebook.com": {b"_rdr", b"_rdc"}, "youtube.com": {b"t", b"si", b"cbrd", b"ucbcb", b"ab_channel"}}
 IRRELEVANT_LABEL = re.compile(r"^(?:www\d?|mobile|m)$", re.I)
 PROTO = re.compile(r"^[a-zA-Z]{0,64}:?//")
 MISTAKES = re.compile(r"&amp(?:%3B|;)", re.I)
@@ -176,6 +179,18 @@ def check(col, url, opts, extra_kwargs=None):
     if not okq:
         col.violation("query-items-only-deleted", FN, inp, {"result": res, "items": repr(items_out)}, repr(items_in))
     else:
+        # an item that only ONE site treats as irrelevant stays on every other site (a host that merely ends with the site's letters is another site)
+        host_in = (din["host"] or "")
+        for dom, keys in PER_DOMAIN_KEYS.items():
+            if host_in == dom or host_in.endswith("." + dom):
+                continue
+            for k, v in items_in:
+                if k in keys and (k, v) not in items_out and not any(host_in == d2 or host_in.endswith("." + d2) for d2, k2 in PER_DOMAIN_KEYS.items() if k in k2):
+                    col.violation("per-domain-item-kept-on-other-domains", FN, inp, {"result": res, "missing": repr((k, v))}, "kept")
+        # a combination key is irrelevant with its LISTED values only: near misses stay
+        for k, v in items_in:
+            if (k, v) in NEAR_MISSES and (k, v) not in items_out:
+                col.violation("combination-key-kept-with-another-value", FN, inp, {"result": res, "missing": repr((k, v))}, "kept")
         for k, v in items_in:
             if k in [s.encode() for s in SAFE_KEYS] and (k, v) not in items_out and not (k == b"q" and False):
                 col.violation("relevant-query-item-kept", FN, inp, {"result": res, "missing": repr((k, v))}, "kept")
@@ -239,13 +254,18 @@ def base_urls():
              "xn--tlrama-bvab.fr", "a.www.b.com", "www.m.a.com", "u:p@www.a.com", "a.com:8080", "a.com:80", "a.com:443", "programm.a.com", "m-x.a.com", "x-m.a.com",
              # hosts made of irrelevant labels only (fully-qualified spellings: the trailing dot closes the label)
              "www.", "m.", "www.m.", "amp.", "www", "amp-"]
+    # per-domain query filters: the domain itself, a subdomain, and hosts that merely END with its letters
+    pd_hosts = ["facebook.com", "m.facebook.com", "notfacebook.com", "youtube.com", "www.youtube.com", "myyoutube.com"]
+    pd_queries = ["_rdr&x=1", "_rdc=1&_rdr", "t=10&v=1", "si=abc&ab_channel=x&v=1"]
     paths = ["", "/", "/a", "/a/", "/A/b/", "/index.html", "/a/index.php", "/a/default.aspx", "/index", "/a/indexes.html", "/a/amp", "/a/amp/", "/a.amp", "/a.amp.html",
              "/camp", "/a/../b/./c//d", "/a%2Fb", "/a/INDEX.html", "/a/index.html/"]
     queries = [None, "id=1", "b=2&a=1", "utm_source=x&id=1", "id=1&utm_campaign=y&page=2", "id=1&amp;page=2", "q=%41&k=a+b", "amp=1&x=1", "x=1&fbclid=abc",
                # an ESCAPED ampersand is data, whatever follows it
                "q=Tom%26amp%3BJerry&page=2", "q=a%26amp;b", "k%26amp%3B=1",
                # key + value combinations: irrelevant for some values only (and AMP ones only with normalize_amp)
-               "ref=fb&id=1", "ref=mine&id=1", "mode=amp&mode=dark", "outputType=amp&x=1", "m=1&m=2", "platform=hootsuite&platform=ios"]
+               "ref=fb&id=1", "ref=mine&id=1", "mode=amp&mode=dark", "outputType=amp&x=1", "m=1&m=2", "platform=hootsuite&platform=ios",
+               # ... near misses of the listed values: a substring, a superstring, the empty value, no value at all
+               "source=it&page=2", "source&page=2", "source=&x=1", "source=twitterx", "ref=f&x=1", "ref=fbx", "mode=am&x=1", "platform=hoot", "sns=t&sns=tww", "spref=w", "fromref=twit"]
     frags = [None, "frag", "/route", "!/route", "!", "/"]
     out = []
     for h in hosts:
@@ -255,6 +275,9 @@ def base_urls():
         for q in queries:
             for f in frags:
                 out.append("https://www.a.com" + p + ("?" + q if q else "") + ("#" + f if f else ""))
+    for h in pd_hosts:
+        for q in pd_queries:
+            out.append("http://" + h + "/p?" + q)
     out += ["a.com/a/", "//a.com/a?id=1", "HTTP://A.COM/Path/", "ftp://a.com/x", "  http://a.com/a  ", "http://a.com/\x00a"]
     return out
 
